@@ -265,3 +265,5 @@ def run(ctx):
     boundaries.check_calls(ctx, 'C05.RC', 'C05')
     from . import C14
     C14.r7_no_loss(ctx, 'C05.R7', C14.REFUSAL_SLOT, floor=2)
+    from .. import boundaries as _b
+    _b.check_predicates(ctx, 'C05.RP', 'C05')
